@@ -21,12 +21,12 @@ TIERS = {
                   members=2, corrupt=1, corrupt_kinds=6, flat_kinds=3,
                   draws=2, gen_draws=1, next_picks=1, first_iter=1,
                   sweep_full=6, sweep_prefix=3, validate_iterated=16,
-                  reuse_tail=2, stub_draws=1, timeout_s=600),
+                  reuse_tail=1, stub_draws=1, regen=0.4, timeout_s=600),
     'thorough': dict(shards=16, max_dnas=64, random=12, random_max=200,
                      prefix=30, members=4, corrupt=1, corrupt_kinds=None,
                      flat_kinds=None, draws=6, gen_draws=2, next_picks=2,
                      first_iter=3, sweep_full=30, sweep_prefix=6,
-                     validate_iterated=30, reuse_tail=3, stub_draws=2,
+                     validate_iterated=30, reuse_tail=3, stub_draws=2, regen=1.0,
                      timeout_s=3000, case_timeout_s=300),
 }
 EXHAUSTIVE = {'quick': True, 'thorough': True}
@@ -192,7 +192,9 @@ def float_family():
           d = S.space(S.choice(1, S.consts(2)), *fs)
         else:
           d = S.space(S.choice(2, [S.space(*fs), S.CONST, S.CONST], False, True))
-        out.append(S.relocate(d))
+        d = S.relocate(d)
+        d['float_family'] = True
+        out.append(d)
   return out
 
 
@@ -676,10 +678,11 @@ def check_random(ctx, rng, desc, spec, case):
   # float draws at the ends of their ranges: generators whose uniform() /
   # random() return the extremes a random.Random may return
   if fkey:
+    bound = rng.sample(ExtremeRandom.MODES, ctx.params.get('stub_draws', 1))
     for mode in ExtremeRandom.MODES:
       x = ExtremeRandom(rng.randrange(1 << 30), mode)
-      for j in range(ctx.params.get('stub_draws', 1) + 1):
-        kw = {'attach_spec': False} if j == 0 else {}
+      # unbound first (see above); stub_draws of the modes draw once more, bound
+      for kw in [{'attach_spec': False}] + [{}] * (mode in bound):
         d = lib_call(ctx, 'random_dna[extreme-rng]' + sfx,
                      lambda: spec.random_dna(x, **kw), case)
         if isinstance(d, Raised):
@@ -701,6 +704,8 @@ def check_random(ctx, rng, desc, spec, case):
   for d in ds:
     judge('geno.Random', d)
   # the same generator object set up on another spec, then on this one again
+  if rng.random() >= ctx.params.get('regen', 1.0):
+    return
   od, ospec, _ = rng.choice(other_specs())
   def regen():
     a.setup(ospec)
@@ -742,22 +747,24 @@ def sweep_history(ctx, rng, desc, spec, exp, sweep_all, nsweep, case):
         targets[name] = (S.show(od), ospec, oref, True)
     return targets[name]
 
-  def short(name):
-    n = rng.choice([0, 1, 2, 2, 'all', 'all+stop'])
+  def short(name, warm):
+    n = rng.choice([0, 1, 1, 2, 2, 'all', 'all+stop'] if warm else [1, 1, 2])
     if isinstance(n, str):
       _, _, ref, complete = target(name)
       n = (len(ref) + (n == 'all+stop')) if complete and len(ref) <= 6 else 3
     return (name, n)
 
-  pick = lambda: rng.choice(['A', 'A', 'A', 'A2', 'B'])
+  pick = lambda: rng.choice(['A', 'A', 'A', 'A', 'A2', 'B', 'B'])
+  tail = ctx.params.get('reuse_tail', 1)
   steps = []
-  if rng.random() < 0.6:
-    steps.append(short(pick()))
-  steps.append(('A', 'main'))
-  for _ in range(rng.randint(1, ctx.params.get('reuse_tail', 2))):
-    steps.append(short(pick()))
-  if steps[-1][1] == 0:
-    steps[-1] = (steps[-1][0], 1)
+  if rng.random() < 0.5:
+    steps += [short(pick(), True), ('A', 'main')]
+    ntail = rng.randint(1, tail) if tail > 1 else int(rng.random() < 0.3)
+  else:
+    steps.append(('A', 'main'))
+    ntail = rng.randint(1, tail)
+  for _ in range(ntail):
+    steps.append(short(pick(), False))
 
   a = pg.geno.Sweeping()
   prev, used, before = None, [], 'nothing'
@@ -985,7 +992,8 @@ def run_case(ctx, i):
   check_members(ctx, desc, spec, sample, case)
   check_nonmembers(ctx, rng, desc, spec,
                    [rng.choice(sample) for _ in range(ctx.params['corrupt'])], case,
-                   all_kinds=size is None and i < len(part))
+                   all_kinds=(size is None and i < len(part)
+                              and not desc.get('float_family')))
   check_random(ctx, rng, desc, spec, case)
   if (size is None or size >= 2) and (
       any(e['t'] == 'choice' and (e['k'] > 1 or any(cd['elems'] for cd in e['cands']))
